@@ -91,10 +91,11 @@ pub trait BlsTimeCrypt:
             // If peek succeeds then try_from will also, so unwrap is okay.
             // peek returns the amount actually used whereas try_from does not
             // thus both are used.
-            let len = uint_zigzag::Uint::try_from(&plaintext[..overhead])
-                .unwrap()
-                .0 as usize;
-            if len <= plaintext.len() - overhead {
+            let prefix = uint_zigzag::Uint::try_from(&plaintext[..overhead]).unwrap();
+            let len = prefix.0 as usize;
+            // The length prefix is not covered by the hash that authenticates the
+            // message, so only its canonical (shortest) encoding is accepted
+            if len <= plaintext.len() - overhead && prefix.to_vec().len() == overhead {
                 message = plaintext[overhead..overhead + len].to_vec();
             } else {
                 return CtOption::new(w.to_vec(), 0u8.into());
